@@ -65,6 +65,7 @@ fn copy_into_writer(reader: &mut Source, writer: &mut PagedWriter) -> (r: std::r
                 && final(writer).dl() >= old(writer).dl()
                 && final(writer).no_new_fault(old(writer)) && final(reader).failed@ == old(reader).failed@,
             Err(_) => final(writer).writer.failed@ || final(reader).failed@ || true },
+        /*[C15]*/ PagedWriter::c15_far(old(writer), final(writer), r is Ok),
 {
     let mut buf = [0u8; 8192];
     let mut total: u64 = 0;
@@ -79,9 +80,11 @@ fn copy_into_writer(reader: &mut Source, writer: &mut PagedWriter) -> (r: std::r
             appended(w0, *writer, all.subrange(0, total as int)), w0.cursor() >= 0,
             writer.no_new_fault(&w0), reader.failed@ == old(reader).failed@,
             writer.dl() >= w0.dl(),
+            (w0.quiet() && w0.cursor() >= 40) ==> writer.quiet(),
         ensures false
         decreases all.len() - total
     {
+        proof { if writer.quiet() { lemma_quiet_clean(*writer); } }
         let n = match reader.read(&mut buf) { Ok(n) => n, Err(e) => return Err(e) };
         if n == 0 {
             proof { assert(all.subrange(0, total as int) =~= all); }
@@ -126,7 +129,7 @@ impl BlobSectionHeader {
                 Err(_) => true },
 //@endfn
 
-//@fn src/blob.rs BlobSectionHeader to_writer serves=C06,C02,C16 ret=r
+//@fn src/blob.rs BlobSectionHeader to_writer serves=C06,C02,C16,C15 ret=r
 //@rw <T: Read \+ Write \+ Seek> ==> <empty>
 //@rw PagedWriter<T> ==> PagedWriter
 //@sig
@@ -136,6 +139,7 @@ impl BlobSectionHeader {
             Ok(_) => final(writer).wf() && appended(*old(writer), *final(writer), spec_blob_header(self.section_length))
                 && final(writer).no_new_fault(old(writer)),
             Err(_) => true },
+            /*[C15]*/ PagedWriter::c15_far(old(writer), final(writer), r is Ok),
 //@tail
         proof { assert(bytes@ =~= spec_blob_header(self.section_length)); }
 //@endfn
@@ -214,7 +218,7 @@ fn copy_take(reader: &mut PagedReader, limit: u64, writer: &mut Sink) -> (r: std
 }
 
 impl Blob {
-//@fn src/blob.rs Blob write serves=C06,C02,C16 ret=r
+//@fn src/blob.rs Blob write serves=C06,C02,C16,C15 ret=r
 //@rw <T: Read \+ Write \+ Seek> ==> <empty>
 //@rw PagedWriter<T> ==> PagedWriter
 //@rw reader: &mut dyn Read ==> reader: &mut Source
@@ -237,8 +241,10 @@ impl Blob {
                 &&& final(writer).no_new_fault(old(writer))
             }),
             Err(_) => true },
+            /*[C15]*/ PagedWriter::c15_far(old(writer), final(writer), r is Ok),
 //@body_start
         let ghost s0 = *writer;
+        proof { lemma_cursor_bound(s0); if s0.quiet() { lemma_quiet_clean(s0); } }
         let ghost payload = reader.remaining();
 //@call to_writer 0 after
         let ghost s1 = *writer;
